@@ -11,6 +11,7 @@ import (
 	"github.com/feichai0017/NoKV/kv"
 	"github.com/feichai0017/NoKV/metrics"
 	"github.com/feichai0017/NoKV/utils"
+	"github.com/feichai0017/NoKV/verifhook"
 	"github.com/pkg/errors"
 )
 
@@ -82,6 +83,7 @@ func (o *oracle) initCommitState(committed uint64) {
 		return
 	}
 
+	verifhook.BeforeLock(&o.Mutex)
 	o.Lock()
 	if committed > o.lastCleanupTs {
 		o.lastCleanupTs = committed
@@ -129,9 +131,11 @@ func (o *oracle) txnMetricsSnapshot() metrics.TxnMetrics {
 
 func (o *oracle) readTs() uint64 {
 	readTs := o.nextTxnTs.Load() - 1
+	verifhook.Yield(o, "orc.readts.loaded")
 	if last := o.txnMark.LastIndex(); last < readTs {
 		readTs = last
 	}
+	verifhook.Yield(o, "orc.readts.clamped")
 	o.readMark.Begin(readTs)
 
 	// Wait for all txns which have no conflicts, have been assigned a commit
@@ -139,6 +143,7 @@ func (o *oracle) readTs() uint64 {
 	// process. Not waiting here could mean that some txns which have been
 	// committed would not be read.
 	utils.Check(o.txnMark.WaitForMark(context.Background(), readTs))
+	verifhook.Yield(o, "orc.readts.waited")
 	return readTs
 }
 
@@ -177,6 +182,7 @@ func (o *oracle) hasConflict(txn *Txn) bool {
 }
 
 func (o *oracle) newCommitTs(txn *Txn) (uint64, bool) {
+	verifhook.BeforeLock(&o.Mutex)
 	o.Lock()
 	defer o.Unlock()
 
@@ -189,9 +195,11 @@ func (o *oracle) newCommitTs(txn *Txn) (uint64, bool) {
 
 	// This is the general case, when user doesn't specify the read and commit ts.
 	ts := o.nextTxnTs.Add(1) - 1
+	verifhook.Yield(o, "orc.committs.issued")
 
 	utils.AssertTrue(ts >= o.lastCleanupTs)
 	o.txnMark.Begin(ts)
+	verifhook.Yield(o, "orc.committs.begun")
 
 	if o.detectConflicts {
 		// We should ensure that txns are not added to o.committedTxns slice when
@@ -255,6 +263,7 @@ func (o *oracle) cleanupCommittedTransactions() { // Must be called under o.Lock
 }
 
 func (o *oracle) doneCommit(cts uint64) {
+	verifhook.Yield(o, "orc.donecommit")
 	o.txnMark.Done(cts)
 }
 
@@ -603,6 +612,7 @@ func (txn *Txn) commitAndSend() (func() error, error) {
 		orc.trackTxnConflict()
 		return nil, utils.ErrConflict
 	}
+	verifhook.Event(txn, "txn.committs", int64(commitTs), int64(txn.readTs))
 
 	setVersion := func(e *kv.Entry) {
 		if e.Version == 0 {
@@ -633,6 +643,7 @@ func (txn *Txn) commitAndSend() (func() error, error) {
 	}
 	ret := func() error {
 		err := req.Wait()
+		verifhook.Yield(txn, "txn.commit.written")
 		if err == nil {
 			orc.trackTxnCommit()
 		}
